@@ -9,6 +9,7 @@ var ExecProfiles = []string{
 	`query Q ( $v : Int = 1 @d , $w : [ [ In ! ] ] ! = [ [ { a : 1 } ] ] ) @d ( x : $v ) { al : f ( a : 1 , b : 1.5 , c : "s" , d : """b""" , e : true , g : null , h : EN , i : [ 1 , $v ] , j : { k : $w , l : { m : [ ] } } ) @d @e ( y : 2 ) { g ... F @d ... on T @d { h } ... @d { i } ... { j } } k }`,
 	`mutation M { m ( in : { a : "x" } ) { id } } subscription S { s } fragment F on T @d ( x : 1 , y : [ { k : 2 } ] ) { f ... G @d ( z : 3 ) } fragment G ( $fv : Int = 2 ) on U { g } { anon }`,
 	`query Q ( $a : Int = [ { k : EN } ] @d ( x : [ { k : EN } ] ) , $c : [ Int ! ] ! ) @e ( y : $a ) { f ( z : { k : [ $a ] } ) @e ( y : $a ) ... F @e ( y : $a ) ... on T @e ( y : $a ) { g } on : on ( on : on ) true null } fragment F ( $b : Int @d ( x : 2 ) ) on T @e ( y : $b ) { h } subscription fragment { query }`,
+	`{ s ( a : "line\nGrüße" , b : "q\"é😀\\ü" , c : [ "\u00e9 ü" , { k : "t\tñ" } ] ) @d ( m : "x\nÿ" ) }`,
 	`{ big ( f : 1e400 , g : -1.5E+309 , i : 123456789012345678901234567890 , z : -0 , z2 : 0.0e0 , e : [ 1e999 , { k : 2E-999 } ] ) }`,
 	`{ a ( x : """
   multi
@@ -44,6 +45,7 @@ directive @d ( a : Int = [ { k : EN } ] @d ( a : [ { k : EN } ] ) ) repeatable o
 	// several schema extensions: directive-only ones before, between and after those that add root operation types
 	`schema { query : A } extend schema @e extend schema { mutation : B } extend schema @e @e extend schema @e { subscription : C } extend schema @e
 type A { f : Int } type B { g : Int } type C { h : Int } directive @e repeatable on SCHEMA`,
+	`"desc with \"quotes\" and Größe" enum E { "v \n ü" A } input I { "é then \t ñ" x : String = "d\nüber" @d ( a : "q\\ß" ) } directive @d ( a : String = "e\u0041é" ) on ENUM_VALUE | INPUT_FIELD_DEFINITION`,
 	`type A { f : Int }
 """
 block
